@@ -13,12 +13,14 @@ Definition idlit (v : pyval) : pyval := v.
 Definition res0 (v : pyval) : res pyval := Ok v.
 
 (* cond.filter(doc) -> (result, data, keys, failure_indices) *)
-Definition run_filter (t : dslc pyval) (doc : pyval) : res pyval :=
-  let* c := build T idlit t in
+Definition run_filter_cond (c : cond pyval) (doc : pyval) : res pyval :=
   let* _ := entry_check c doc in
   let* d := mk_data doc in
   let* f := filter_tree T res0 c d in
   Ok (obs_filter d f).
+
+Definition run_filter (t : dslc pyval) (doc : pyval) : res pyval :=
+  let* c := build T idlit t in run_filter_cond c doc.
 
 Definition first_result (o : pyval) : res pyval :=
   match o with VTuple (VList (b :: _) :: _) => Ok b | _ => Err IndexError end.
